@@ -1,0 +1,16 @@
+//go:build verif
+
+package operator
+
+import "reduction.dev/reduction/util/verifhook"
+
+// verifRetuneTimers rebuilds the timer registry with a harness-chosen cache
+// size (tuning "timer_cache_bytes", uint64) so that caches smaller than the
+// timer set can be exercised underneath a real Operator.
+func verifRetuneTimers(o *Operator, sourceRunnerIDs []string) {
+	v, ok := verifhook.Tuning("timer_cache_bytes")
+	if !ok {
+		return
+	}
+	o.timerRegistry = NewTimerRegistry(NewTimerStore(o.db, o.keySpace, o.keyGroupRange, v.(uint64)), sourceRunnerIDs)
+}
